@@ -14,6 +14,7 @@ import (
 )
 
 var firstHistory *int
+var withQueries bool
 
 func envSeed() int64 {
 	if s := os.Getenv("VERIF_SEED"); s != "" {
@@ -86,6 +87,7 @@ func main() {
 	depth := fs.Int("depth", 50, "history length")
 	iavl := fs.Bool("iavl", false, "IAVL-backed stores with a commit per transaction")
 	first := fs.Int("first", 1, "first history number (replays)")
+	fs.BoolVar(&withQueries, "q", false, "also observe the state through all queries after every transaction")
 	firstHistory = first
 	fs.Parse(os.Args[2:])
 	tab := NewSymTab(seed, ModuleAddress, prefix)
@@ -140,6 +142,10 @@ func runEvent(inst *Instance, pre M, msg M, faults []bool) M {
 	}
 	obs := M{"res": r.Res, "resp": inst.ProjectResp(gets(msg, "type"), r), "calls": inst.ProjectCalls(r.Calls),
 		"evs": inst.ProjectEvents(r.Events), "post": post, "junk": toAny(junk), "writes": inst.ProjectWrites(r.Writes), "vas": vas}
+	if withQueries {
+		obs["q"] = inst.QueryView(uint64(1 + len(r.Calls) + len(getm(post, "bal"))%1 + int(inst.qn%3)))
+		inst.qn++
+	}
 	ev := M{"msg": msg, "faults": used, "obs": obs}
 	if r.Err != "" {
 		ev["note"] = r.Err
